@@ -453,6 +453,16 @@ TIES = {
                                       'range_any_of_tie', 'range_containers_accept'],
                             cxx='is_range_checker, starts_with_range_checker, ends_with_range_checker, range_all_of / none_of / any_of checkers '
                                 '(matcher/range.hpp): one standard algorithm with a param_matches lambda each'),
+    'Delegates': dict(props=['C03', 'C05', 'C06', 'C13'],
+                      gen=['CmIsSatisfied', 'CmIsSaturated', 'CmSequenceCost', 'ShOrder', 'ShValidate', 'ShRetire', 'ShRetirePredecessors', 'Sm0Order',
+                           'LmIsSatisfied', 'LmIsSaturated', 'SeqIsCompleted', 'ConditionCheck', 'GetMinCalls', 'GetCalls', 'SmIsSatisfied',
+                           'HandlerIsSatisfied', 'HandlerIsSaturated'],
+                      theorems=['cm_queries_delegate', 'public_is_satisfied_tie', 'public_is_saturated_tie', 'lm_queries', 'public_monitor_queries_tie',
+                                'sm_is_satisfied_delegates', 'seq_is_completed_delegates', 'sh_delegates', 'cm_sequence_cost_delegates',
+                                'sm0_order_zero', 'condition_check_delegates', 'call_count_accessors'],
+                      cxx='the delegating layers: call_matcher::is_satisfied / is_saturated / sequence_cost, sequence_handler<N>::validate / order / '
+                          'retire / retire_predecessors, sequence_matchers<0>::order, lifetime_monitor::is_satisfied / is_saturated, '
+                          'sequence::is_completed, sequence_matcher::is_satisfied, condition::check, get_min_calls / get_calls'),
     'ReturnPath': dict(props=['C08', 'C17'], gen=['ReturnHandlerCall', 'TraceReturnVoid', 'TraceReturnValue'],
                        theorems=['return_path_tie', 'return_evaluated_once'],
                        cxx='return_handler_t::call and the two trace_return<Ret> helpers (mock.hpp): the RETURN functor is evaluated once'),
